@@ -286,7 +286,11 @@ def _main(args, prop, tier, seed, start, mod, known, known_sigs, tmp):
           f'distinct_nontrivial={len(agg["nontrivial"])} shards={nshards} wall={wall:.1f}s '
           f'violations={len(violations)}')
     if violations:
-        for v in violations[:20]:
+        seen = set()
+        for v in violations:
+            if v['replay'] in seen or len(seen) >= 20:
+                continue
+            seen.add(v['replay'])
             print(f'VIOLATION property={prop} replay={v["replay"]}')
             print(f'  sig={v["sig"]} {v["message"][:600]}')
         return 1
